@@ -60,6 +60,23 @@ def oracle(case, out):
             if not any(e[0] == K["SETRES"] and e[1] == key for e in evs[cidx:]):
                 return ("operation %d (slot %d) was cancelled and the driver polled, but it never finished "
                         "(cancellation not prompt)" % (key, i))
+    # polling driver: the cancelled entry is already queued for delivery when cancel returns, so
+    # the very next poll must deliver it, whatever else is ready at that moment
+    if case[0] == 1:
+        for idx, (k, key, arg) in enumerate(evs):
+            if k != K["P_CANCEL"] or key not in cancelled_keys:
+                continue
+            if any(e[0] == K["SETRES"] and e[1] == key for e in evs[:idx]):
+                continue
+            begin = next((j for j in range(idx, len(evs)) if evs[j][0] == 107 and evs[j][1] == 0), None)
+            if begin is None:
+                continue
+            end = next((j for j in range(begin, len(evs)) if evs[j][0] == 107 and evs[j][1] == 1), len(evs))
+            if any(e[0] == K["DROP_BEGIN"] for e in evs[idx:end]):
+                continue
+            if not any(e[0] == K["SETRES"] and e[1] == key for e in evs[idx:end]):
+                return ("polling driver: operation %d was cancelled before a poll, but that poll did not deliver "
+                        "its completion (it stays pending as long as other descriptors are ready)" % key)
     return None
 
 
